@@ -327,6 +327,7 @@ def pretty_selectors(tier):
     texts += [c09.render(c09.parts_of(l)) for l in c09.bases('quick')]
     texts += ['[type="a|b" i]', ':lang("de-*", "")', ':-soup-contains("a\\"b", \'c\')', ':is()', ':root:hover', ':nth-child(-100n - 7 of :not(.x, #y))',
               'a:default, :indeterminate', ':in-range', ':dir(rtl)', '[a="]"]', "[a='(']", '[a="\\\\"]', ':--x',
+              'a[href="http://www.example-site.org/a.b-c/d.e-f/g.h-i/j.k-l/' + 'm.n-o/' * 40 + '"]', '[a^="' + '.-+*?()[]{}|^$ ' * 20 + '"]', 'a[b$="' + '\\\\.' * 90 + '"]',
               '[a="' + 'x' * 250 + '"]', '[a~="' + 'y' * 500 + '" i]', '[a="' + "q'" * 120 + '"]', '.' + 'c' * 300, '#' + 'i' * 300,
               ':-soup-contains("' + 'z' * 400 + '")', ':lang("' + 'en-' * 100 + 'x")', ', '.join('a%d' % i for i in range(60)), ':is(' + ', '.join('[k="%s"]' % ('v' * i) for i in range(180, 215, 5)) + ')']
     seen, out = set(), []
